@@ -160,6 +160,28 @@ public:
   // ------------------------------------------------------------------ names
   std::string qname(const NamedDecl *D) {
     std::string s;
+    // members of class template specialisations: qualify with the specialisation's template arguments
+    if (const auto *RDc = dyn_cast<CXXRecordDecl>(D->getDeclContext())) {
+      if (isa<ClassTemplateSpecializationDecl>(RDc) && !isa<ClassTemplatePartialSpecializationDecl>(RDc) && !isa<CXXRecordDecl>(D)) {
+        s = qname(RDc) + "::" + D->getNameAsString();
+        if (const auto *FD = dyn_cast<FunctionDecl>(D)) {
+          if (const auto *TA = FD->getTemplateSpecializationArgs()) {
+            std::string a;
+            raw_string_ostream aos(a);
+            printTemplateArgumentList(aos, TA->asArray(), PP);
+            aos.flush();
+            s += a;
+          }
+        }
+        return safe(s);
+      }
+    }
+    if (const auto *SD = dyn_cast<ClassTemplateSpecializationDecl>(D)) {
+      if (!isa<ClassTemplatePartialSpecializationDecl>(SD)) {
+        QualType T = Ctx.getTypeDeclType(SD);
+        return safe(T.getCanonicalType().getAsString(PP));
+      }
+    }
     raw_string_ostream os(s);
     D->printQualifiedName(os, PP);
     os.flush();
